@@ -224,12 +224,15 @@ where
 
         {
             let mut guard = self.group.write();
-            guard.insert(name.clone(), state.clone());
-        }
 
-        {
-            let mut guard = self.keyspace_timestamps.write();
-            guard.insert(name, update_counter);
+            // Another task may have created the keyspace while this one was
+            // spawning its actor, in which case the existing state is kept.
+            if let Some(existing) = guard.get(&name) {
+                return existing.clone();
+            }
+
+            guard.insert(name.clone(), state.clone());
+            self.keyspace_timestamps.write().insert(name, update_counter);
         }
 
         state
